@@ -146,6 +146,12 @@ def main():
     for _ in range(count):
         nvec = [rng.randint(1, 4), rng.randint(1, 4), rng.randint(1, 3)]
         todo.append(([rng.choice(STARTS) for _ in range(3)], [rng.choice(STEPS) for _ in range(3)], nvec))
+    # ... and requests that differ from the previous one on the same object by a few parts in a million only (anything kept
+    # "for the same grid" with a tolerance would be reused)
+    for start, inc, nvec in ([20000.0, 0.0, 300.0], [0.05, 0.1, -0.1], [4, 2, 3]), ([1.5, -2.0, 0.25], [0.5, 0.25, 1.0], [2, 3, 2]):
+        todo.append((list(start), list(inc), list(nvec)))
+        todo.append(([x * (1 + 3e-6) + 1e-9 for x in start], list(inc), list(nvec)))
+        todo.append(([x * (1 + 3e-6) + 1e-9 for x in start], [x * (1 + 2e-6) for x in inc], list(nvec)))
     for start, inc, nvec in todo:
         v = check_near(m, start, inc, nvec)
         out['cases'] += 1
